@@ -413,6 +413,25 @@ Definition file_stats (f : dfile) : res dfile :=
                           | None => Err EValue
                           end
                      else do p <- guess_line_endings_bytes diff enc; Ok (snd p));
+      (* work with a UTF-8 version of the diff when it decodes in its declared encoding (ValueError: keep the bytes) *)
+      do dn <- (match enc with
+                | Some e =>
+                    match py_decode diff e with
+                    | Ok t =>
+                        match py_decode newline e with
+                        | Ok nt => match c_enc utf8 t, c_enc utf8 nt with
+                                   | Some a, Some b => Ok (a, b)
+                                   | _, _ => Ok (diff, newline)
+                                   end
+                        | Err EUnmodelled => Err EUnmodelled
+                        | Err _ => Ok (diff, newline)
+                        end
+                    | Err EUnmodelled => Err EUnmodelled
+                    | Err _ => Ok (diff, newline)
+                    end
+                | None => Ok (diff, newline)
+                end);
+      let (diff, newline) := dn in
       match split_lines diff newline false with
       | Err _ => Ok f                     (* logged and swallowed *)
       | Ok lines =>
